@@ -6,6 +6,8 @@ import (
 	"go/parser"
 	"go/token"
 	"path/filepath"
+	"slices"
+	"strings"
 
 	"github.com/bmatcuk/doublestar/v4"
 	MapSet "github.com/deckarep/golang-set/v2"
@@ -53,6 +55,10 @@ func (facade *PackagesFacade) GetAllSourceFiles() []*ast.File {
 		result = append(result, file)
 	}
 	result = verifhook.Permute("GetAllSourceFiles", result, func(f *ast.File) string { return facade.fileSet.Position(f.Pos()).Filename })
+	// Map iteration order must not leak into the order in which files - and hence receivers and generated routes - are processed
+	slices.SortFunc(result, func(a, b *ast.File) int {
+		return strings.Compare(facade.fileSet.Position(a.Pos()).Filename, facade.fileSet.Position(b.Pos()).Filename)
+	})
 	return result
 }
 
